@@ -24,6 +24,7 @@ def lexmax(murmur, nodes, key, seed=0, hf=None):
 class FakeClient:
     """client_class seam: records which server object receives which call"""
     log = []
+    down = set()
 
     def __init__(self, server, **kw):
         self.server = server
@@ -31,8 +32,18 @@ class FakeClient:
     def __getattr__(self, name):
         def f(*a, **kw):
             FakeClient.log.append((self.server, name, a))
+            if self.server in FakeClient.down and name != "close":
+                raise ConnectionRefusedError(111, "refused")
             return None if name != "get_many" else {}
         return f
+
+
+class FakeTime:
+    def __init__(self):
+        self.now = 1_000_000.0
+
+    def time(self):
+        return self.now
 
 
 def main(argv):
@@ -85,9 +96,9 @@ def main(argv):
     for mode in hfs:
         for _ in range(400 if ctx.thorough else 80):
             hf = hfs[mode]
-            rh = RendezvousHash(hash_function=hf) if hf else RendezvousHash()
-            live = []
-            hist = []
+            live = rng.sample(names, rng.choice([0, 0, 1, 2, 3]))      # nodes given to the constructor
+            rh = RendezvousHash(nodes=list(live), hash_function=hf) if hf else RendezvousHash(nodes=list(live))
+            hist = [("ctor", x) for x in live]
             for _ in range(rng.randrange(1, 9)):
                 if live and rng.random() < .4:
                     x = rng.choice(live)
@@ -160,6 +171,72 @@ def main(argv):
         for pl in placements[1:]:
             if pl != placements[0]:
                 ctx.violation("equivalent spellings of the server addresses give different placement", {"group": group})
+    # 3b. HashClient rotation histories: servers added, failing (removed from rotation) and recovering (re-added); after every event the
+    #     contacted server is the rendezvous winner over the servers currently in rotation - nothing of the earlier rotation lingers
+    import pymemcache.client.hash as hash_mod
+    real_time = hash_mod.time
+    pool_servers = [("10.0.0.%d" % i, 11211) for i in range(1, 7)]
+    small = ["key%d" % i for i in range(120 if ctx.thorough else 60)]
+    try:
+        for rep in range(40 if ctx.thorough else 12):
+            ft = FakeTime()
+            hash_mod.time = ft
+            FakeClient.down = set()
+            start = rng.sample(pool_servers, rng.randrange(1, 4))
+            hc = type('HC', (HashClient,), {'client_class': FakeClient})(list(start), retry_attempts=0, dead_timeout=60, ignore_exc=True)
+            rotation = list(start)
+            hist = [("ctor", start)]
+
+            def probe(what):
+                FakeClient.log = []
+                for k in small:
+                    hc.get(k)
+                nodes = ["%s:%s" % s_ for s_ in rotation]
+                for k, (srv, _, a) in zip(small, FakeClient.log):
+                    ctx.count("hashclient-rotation-probes")
+                    want = lexmax(murmur3_32, nodes, k)
+                    got = "%s:%s" % srv
+                    if got != want:
+                        ctx.violation("HashClient contacted a server other than the rendezvous winner over the servers now in rotation",
+                                      {"history": [list(map(str, h)) for h in hist], "after": what, "rotation": nodes, "key": k, "got": got, "want": want}, tags=["hashclient-rotation"])
+                        return False
+                return True
+            ok = probe("construction")
+            for step in range(rng.randrange(2, 7)):
+                if not ok:
+                    break
+                ev = rng.choice(["add", "fail", "recover"])
+                outside = [s_ for s_ in pool_servers if s_ not in rotation and s_ not in FakeClient.down]
+                if ev == "add" and outside:
+                    x = rng.choice(outside)
+                    hc.add_server(x)
+                    rotation.append(x)
+                    hist.append(("add_server", x))
+                elif ev == "fail" and len(rotation) > 1:
+                    x = rng.choice(rotation)
+                    FakeClient.down.add(x)
+                    for k in small:            # the first call that reaches it takes it out of rotation
+                        hc.get(k)
+                    rotation.remove(x)
+                    hist.append(("failed", x))
+                elif ev == "recover" and FakeClient.down:
+                    x = rng.choice(sorted(FakeClient.down))
+                    FakeClient.down.discard(x)
+                    ft.now += 61
+                    rotation.append(x)
+                    for y in list(FakeClient.down):      # the other dead servers are retried too, fail again and leave again
+                        pass
+                    hist.append(("recovered after dead_timeout", x))
+                    if FakeClient.down:
+                        for k in small:
+                            hc.get(k)
+                else:
+                    continue
+                ctx.case(("rotation", rep, step), nontrivial=len(rotation) >= 2)
+                ok = probe(hist[-1][0])
+    finally:
+        hash_mod.time = real_time
+        FakeClient.down = set()
     # node-name model (normalize_server_spec + _make_client_key) against the real code
     nlines, nwant = [], []
     specs = ["h:12", "h", "localhost:11211", "[::1]:11211", "[::1]", "unix:/a/b", "/a/b", "a.b-c:1", "x:0", "h:0012", ("h", 12), ("h.x", 11211)]
